@@ -133,3 +133,7 @@ ENTRIES += [
     B('regress-symlink-target-untested', "        if not link_target:\n            # A listing can name a link without telling where it points\n            # (MLSD 'type=symlink; name').\n            _logger.debug('No target for symlink {}.', link_name)\n            return\n\n", "", 'C09-D2', 'wpull/processor/ftp.py'),
     N('symlink-typeerror-handled', "            except (OSError, ValueError) as error:\n                # The name comes from the listing", "            except (OSError, ValueError, TypeError) as error:\n                # The name comes from the listing", 'wpull/processor/ftp.py'),
 ]
+
+ENTRIES += [
+    B('strerror-hoisted', "            self.close()\n            if isinstance(error, NetworkError):\n                raise\n", "            self.close()\n            error_message = os.strerror(error.errno)\n            if isinstance(error, NetworkError):\n                raise\n", 'C09-D3', 'wpull/network/connection.py'),
+]
